@@ -269,6 +269,28 @@ impl TypeRefPatcher<'_> {
             // Otherwise we retrieve the alias' type string and try to resolve it in the ast.
             let identifier = match &underlying_type.definition {
                 TypeRefDefinition::Patched(ptr) => {
+                    // The alias is for a primitive or an anonymous type. If it's an anonymous type, we have to make sure
+                    // that it doesn't use (directly or indirectly) any of the type aliases we went through to get here.
+                    let mut visited = Vec::new();
+                    if let Some(type_alias_id) = find_type_alias_in(underlying_type, &type_alias_chain, &mut visited, ast) {
+                        // Like above, we only report an error if the cycle leads back to the type alias we started with.
+                        if type_alias_chain.first() == Some(&type_alias_id) {
+                            Diagnostic::new(Error::SelfReferentialTypeAliasNeedsConcreteType {
+                                identifier: type_alias_id.clone(),
+                            })
+                            .set_span(type_alias.span())
+                            .add_note("failed to resolve type due to a cycle in its definition", None)
+                            .add_note(
+                                format!("cycle: {} -> {}", type_alias_chain.join(" -> "), type_alias_id),
+                                None,
+                            )
+                            .push_into(self.diagnostics);
+                        }
+                        return Err(LookupError::DoesNotExist {
+                            identifier: type_alias_id,
+                        });
+                    }
+
                     // Lookup the node that is being aliased in the AST, and convert it into a patch.
                     // TODO: when `T = dyn Type` we can skip this, and use `ptr.clone()` directly.
                     let node = ast.as_slice().iter().find(|node| ptr == &<&dyn Element>::from(*node));
@@ -284,6 +306,38 @@ impl TypeRefPatcher<'_> {
                 current_type_alias = next_type_alias.borrow();
             } else {
                 return try_into_patch(node, attributes);
+            }
+        }
+    }
+}
+
+/// Searches the provided type for uses of the specified type aliases (identified by their module-scoped identifiers).
+/// Only places that are transparent to type aliases are searched: the element, key, value, success, and failure types
+/// of anonymous types, and the underlying types of other type aliases (these are tracked in `visited`).
+/// If one of the type aliases is found, this returns its identifier, otherwise this returns `None`.
+fn find_type_alias_in(type_ref: &TypeRef, type_aliases: &[String], visited: &mut Vec<String>, ast: &Ast) -> Option<String> {
+    match &type_ref.definition {
+        TypeRefDefinition::Patched(ptr) => match ptr.borrow().concrete_type() {
+            Types::Sequence(sequence) => find_type_alias_in(&sequence.element_type, type_aliases, visited, ast),
+            Types::Dictionary(dictionary) => find_type_alias_in(&dictionary.key_type, type_aliases, visited, ast)
+                .or_else(|| find_type_alias_in(&dictionary.value_type, type_aliases, visited, ast)),
+            Types::ResultType(result_type) => find_type_alias_in(&result_type.success_type, type_aliases, visited, ast)
+                .or_else(|| find_type_alias_in(&result_type.failure_type, type_aliases, visited, ast)),
+            _ => None,
+        },
+        TypeRefDefinition::Unpatched(identifier) => {
+            let node = ast.find_node_with_scope(&identifier.value, type_ref.module_scope()).ok()?;
+            let Node::TypeAlias(type_alias_ptr) = node else { return None };
+
+            let type_alias = type_alias_ptr.borrow();
+            let type_alias_id = type_alias.module_scoped_identifier();
+            if type_aliases.contains(&type_alias_id) {
+                Some(type_alias_id)
+            } else if visited.contains(&type_alias_id) {
+                None
+            } else {
+                visited.push(type_alias_id);
+                find_type_alias_in(&type_alias.underlying, type_aliases, visited, ast)
             }
         }
     }
